@@ -639,3 +639,44 @@ def model_line(spec: dict, k: int | None, deep: int) -> str:
         "save", str(deep), str(verbose), "-" if k is None else str(k), spec.get("dir") or "-", spec["name"], files,
         ";".join(parts) or "-",
     ])
+
+
+# --------------------------------------------------------------------------- outside the model: function bodies
+
+
+def function_body_probe() -> dict:
+    """A model whose only uninitialized initializer lives in an If branch *inside a model-local function*
+    (`model.functions`): `model.graphs()` does not visit function bodies.  Returns what the real save did."""
+    from onnxscript import ir
+    from onnxscript._framework_apis import torch_2_5 as api
+
+    def fv(n, shape=(2,), dt=ir.DataType.FLOAT):
+        return ir.Value(name=n, shape=ir.Shape(list(shape)), type=ir.TensorType(dt))
+
+    root = tempfile.mkdtemp(prefix="c20f_")
+    try:
+        fx, cond = fv("fx"), fv("c", (), ir.DataType.BOOL)
+        u = fv("fu")
+        t = ir.tensor(np.arange(100, dtype=np.float32), name="fb")
+        b = ir.Value(name="fb", const_value=t, shape=t.shape, type=ir.TensorType(t.dtype))
+        n1 = ir.node("Identity", [fx], name="i1")
+        n2 = ir.node("Identity", [fx], name="i2")
+        br = ir.Graph(inputs=[], outputs=n1.outputs, nodes=[n1], initializers=[u, b], name="br")
+        br2 = ir.Graph(inputs=[], outputs=n2.outputs, nodes=[n2], initializers=[], name="br2")
+        ifn = ir.node("If", [cond], attributes={"then_branch": br, "else_branch": br2}, name="if")
+        fg = ir.Graph(inputs=[fx, cond], outputs=ifn.outputs, nodes=[ifn], name="f", opset_imports={"": 18})
+        f = ir.Function("dom", "f", graph=fg, attributes=[])
+        x, c2 = fv("x"), fv("c2", (), ir.DataType.BOOL)
+        call = ir.node("f", [x, c2], domain="dom", name="call")
+        g = ir.Graph(inputs=[x, c2], outputs=call.outputs, nodes=[call], name="g", opset_imports={"": 18, "dom": 1})
+        m = ir.Model(g, ir_version=10, functions=[f])
+        exc = None
+        try:
+            api.save_model_with_external_data(m, os.path.join(root, "m.onnx"))
+        except BaseException as e:  # noqa: BLE001
+            exc = e
+        return {"res": err_class(exc), "files": sorted(os.listdir(root)), "still_uninit": u.const_value is None,
+                "big_same": b.const_value is t}
+    finally:
+        shutil.rmtree(root, ignore_errors=True)
+
